@@ -119,6 +119,8 @@ def virtual_run(sc, choices, scratch):
             act = en[c]
             if en[0][0] == "step" and act[0] != "step":
                 ok = False  # a deviation: not replayable against real time
+            if act[0] in ("timer", "op") and any(a[0] == "exit" and a[2] == -9 for a in en):
+                ok = False  # the virtual environment withholds the exit of a SIGKILLed process while time passes / the client goes on: reality cannot
             if act[0] == "op":
                 actions.append(("op", sc["ops"][sum(1 for a in actions if a[0] == "op")]))
             elif act[0] == "exit":
